@@ -62,12 +62,12 @@ PROPS = {
                 "engine: two map-valued vars, 1-3 operator instances, 4-14 edits per history (insert / delete / change / empty / refill / equal map "
                 "written again), observe / unobserve / re-observe of the outputs; non-trivial = distinct history in which an operator's user function was called",
                 nq=200, nt=8000),
-    "C17": spec(["IncrVerif.Props.C17"], [("maps", 0.7), ("perkey", 0.3)], ["api", "ev"],
+    "C17": spec(["IncrVerif.Props.C17", "IncrVerif.Props.C15History"], [("maps", 0.7), ("perkey", 0.3)], ["api", "ev"],
                 "profiles maps and perkey: every call of a user function (with key, arguments, role and result) is logged on both sides and compared as a "
                 "sequence; holds_C17 checks the calls against the keys that differ between the input the operator last ran on and the current one; "
                 "non-trivial = distinct history in which an operator's user function was called",
                 nq=200, nt=8000),
-    "C19": spec(["IncrVerif.Props.C19"], [("limits", 1.0)], ["api", "read", "heap", "stats"],
+    "C19": spec(["IncrVerif.Props.C19", "IncrVerif.Props.C19History"], [("limits", 1.0)], ["api", "read", "heap", "stats"],
                 "profile limits: limit N in 1..12, map chains of top height N-1..N+1 (fan-in 1-2), binds over chains, growing and shrinking "
                 "reconfigurations at quiescent points (also below the greatest height used), and the misuse stream: cycles closed through one "
                 "or two binds, stabilise called from a node function and from a handler; every history ends by dropping every handle and the state; "
